@@ -158,6 +158,64 @@ def judge_factory(rec, cfg):
                     if x.startswith("put ") and a["proc"] in spawn_t and a["t"] != spawn_t[a["proc"]]:
                         v("C09", "waited", f"non-blocking {kind} {nid} waited from t={spawn_t[a['proc']]} to t={a['t']} with a finished item")
                 pdisc = d
+        # C15: policies obeyed and recorded truthfully
+        if kind == "machine":
+            nin = len(n.in_edges); nout = len(n.out_edges)
+            inp, outp = c.get("inp", "FIRST_AVAILABLE"), c.get("out", "FIRST_AVAILABLE")
+            gets = [int(x.split()[1][1:]) for a in acts for x in a["calls"] if x.startswith("get ")]
+            insel = list(st["in_edge_selection"]); outsel = list(st["out_edge_selection"])
+            if insel[:len(gets)] != gets or len(insel) - len(gets) not in (0, 1):
+                v("C15", "insel-history", f"machine {nid}: in_edge_selection {insel[:8]}… but items were pulled from edges {gets[:8]}…")
+            if inp == "ROUND_ROBIN" and insel != [i % nin for i in range(len(insel))]:
+                v("C15", "round-robin", f"machine {nid}: ROUND_ROBIN in-edge sequence is {insel[:10]}")
+            if isinstance(inp, int) and any(x != inp for x in gets):
+                v("C15", "constant", f"machine {nid}: constant in-edge {inp} but pulled from {sorted(set(gets))}")
+            if outp == "ROUND_ROBIN" and outsel != [i % nout for i in range(len(outsel))]:
+                v("C15", "round-robin", f"machine {nid}: ROUND_ROBIN out-edge sequence is {outsel[:10]}")
+            # FIRST_AVAILABLE: lowest-index triggered token wins; user callables: one call per item, obeyed
+            awaited = {}     # proc -> list of (edge, token)
+            for a in acts:
+                p = a["proc"]; calls = a["calls"]
+                res = [(int(x.split()[1][1:]), int(x.split()[2][1:])) for x in calls if x.startswith("rg ") or x.startswith("rp ")]
+                use = [x for x in calls if x.startswith("get ") or x.startswith("put ")]
+                if use and p in awaited and len(awaited[p]) > 1:
+                    e_used = int(use[0].split()[1][1:])
+                    trig = set(a["trig"])
+                    cand = [e for (e, t) in awaited[p] if t in trig]
+                    if cand and e_used != cand[0]:
+                        v("C15", "first-available", f"machine {nid}: FIRST_AVAILABLE used edge {e_used} although edge {cand[0]} (lower index) was able to serve")
+                sels = [int(x.split()[1]) for x in calls if x.startswith("sel ")]
+                if sels:
+                    nxt = [x for x in calls if x.startswith(("rg ", "rp ", "can "))]
+                    if len(sels) != 1:
+                        v("C15", "user-once", f"machine {nid}: selector consulted {len(sels)} times in one step")
+                    elif nxt and int(nxt[0].split()[1][1:]) != sels[0] and 0 <= sels[0]:
+                        v("C15", "user-obeyed", f"machine {nid}: selector answered {sels[0]} but edge {nxt[0].split()[1]} was used")
+                if res: awaited[p] = res
+                elif use: awaited.pop(p, None)
+            # out-edge history: every push must have been recorded
+            puts = [int(x.split()[1][1:]) for a in acts for x in a["calls"] if x.startswith("put ")]
+            probes_false = [int(x.split()[1][1:]) for a in acts for x in a["calls"] if x.startswith("can ") and x.endswith(" 0")]
+            if outp == "FIRST_AVAILABLE" and not c.get("blocking", True):
+                if len(outsel) < len(puts) - 1:
+                    v("C15", "outsel-missing", f"machine {nid}: {len(puts)} items pushed (non-blocking FIRST_AVAILABLE) but out_edge_selection has {len(outsel)} entries")
+            elif outp == "FIRST_AVAILABLE":
+                if sorted(outsel) != sorted(puts) and abs(len(outsel) - len(puts)) > 0:
+                    v("C15", "outsel-history", f"machine {nid}: out_edge_selection {outsel[:8]}… vs pushes {puts[:8]}…")
+            else:
+                exp = sorted(puts + (probes_false if not c.get("blocking", True) else []))
+                if not (0 <= len(outsel) - len(exp) <= c.get("wc", 1)) or any(x not in outsel for x in set(exp)):
+                    v("C15", "outsel-history", f"machine {nid}: out_edge_selection {outsel[:8]}… vs edges used {exp[:8]}…")
+        if kind == "source":
+            nout = len(n.out_edges); outp = c.get("out", "FIRST_AVAILABLE")
+            used = []
+            for a in acts:
+                for x in a["calls"]:
+                    if x.startswith("put "): used.append(int(x.split()[1][1:]))
+            if isinstance(outp, int) and any(x != outp for x in used):
+                v("C15", "constant", f"source {nid}: constant out-edge {outp} but pushed to {sorted(set(used))}")
+            if outp == "ROUND_ROBIN" and c.get("blocking", True) and used != [i % nout for i in range(len(used))]:
+                v("C15", "round-robin", f"source {nid}: ROUND_ROBIN out-edge sequence is {used[:10]}")
         # C19: monotone time per node
         ts = [a["t"] for a in acts]
         if any(b < a for a, b in zip(ts, ts[1:])):
